@@ -114,6 +114,9 @@ def lean_type(t):
         return ' × '.join(_paren(lean_type(p)) for p in _prod_parts(t))
     if t.startswith('List '):
         return 'List ' + _paren(lean_type(t[5:]))
+    if t.startswith('Fn '):
+        dom, cod = t.split()[1:3]
+        return f'{lean_type(dom)} → {lean_type(cod)}'
     if t.startswith('Set '):
         return 'List ' + _paren(lean_type(t[4:]))
     if t.startswith('Opt ') and t not in LEAN_TYPE:
@@ -344,6 +347,17 @@ class FnTr:
                 nm = self.gensym(lname(n))
                 self.env[n] = Val(nm, 'Set ' + v.typ, path=n)
                 return f'let {nm} := ({v.text} :: {old.text})\n' + self.block(rest)
+            if isinstance(c, ast.Call) and isinstance(c.func, ast.Attribute) and c.func.attr == 'append' and len(c.args) == 1 \
+                    and isinstance(c.func.value, ast.Name) and c.func.value.id in self.env \
+                    and self.env[c.func.value.id].typ.startswith('List '):
+                n = c.func.value.id
+                v = self.expr(c.args[0])
+                old = self.env[n]
+                if old.typ != 'List ' + v.typ:
+                    raise Unsupported(f'append of {v.typ} to {old.typ}')
+                nm = self.gensym(lname(n))
+                self.env[n] = Val(nm, old.typ, path=n)
+                return f'let {nm} := ({old.text} ++ [{v.text}])\n' + self.block(rest)
             hook = self.u.hooks.get('expr_stmt')
             if hook and hook(self, s.value):
                 return self.block(rest)
@@ -896,6 +910,8 @@ class FnTr:
             if len(vals) == 2 and vals[0].typ == vals[1].typ:
                 return Val(f'({vals[0].text}, {vals[1].text})', 'Pair ' + vals[0].typ)
             raise Unsupported(f'tuple `{ast.unparse(e)}`')
+        if isinstance(e, ast.List) and not e.elts:
+            return Val('[]', 'List ?')
         if isinstance(e, ast.List) and e.elts:
             parts, typ = [], None
             for el in e.elts:
@@ -915,6 +931,13 @@ class FnTr:
             return Val('(' + ' ++ '.join(parts) + ')', 'List ' + typ)
         if isinstance(e, ast.Subscript):
             v = self.expr(e.value)
+            if v.typ == 'Props':
+                k = self.expr(e.slice)
+                if k.typ != 'Str':
+                    raise Unsupported(f'dict lookup with a key of type {k.typ}')
+                r = Val(f'(match GV.Coll.assocGet {v.text} {k.text} with | some v => Except.ok v | none => Except.error "ERR:Key")', 'PVal')
+                r.raises = True                       # KeyError
+                return r
             if v.typ.startswith('Prod ') and isinstance(e.slice, ast.Constant) and e.slice.value in (0, 1):
                 parts = _prod_parts(v.typ)
                 return Val(f'{v.text}.{e.slice.value + 1}', parts[e.slice.value])
@@ -961,6 +984,9 @@ class FnTr:
 
     def compare2(self, a, op, b):
         num = ('Dt', 'Td', 'Int')
+        if isinstance(op, (ast.In, ast.NotIn)) and b.typ == 'Props' and a.typ == 'Str':
+            r = Val(f'((GV.Coll.assocGet {b.text} {a.text}).isSome)', 'Bool')
+            return r if isinstance(op, ast.In) else Val(f'(!{r.text})', 'Bool')
         if isinstance(op, (ast.In, ast.NotIn)) and b.typ.startswith('List ') and b.typ[5:] == a.typ:
             r = Val(f'(({b.text}).contains {a.text})', 'Bool')
             return r if isinstance(op, ast.In) else Val(f'(!{r.text})', 'Bool')
@@ -1066,6 +1092,12 @@ class FnTr:
             if f.id == 'isinstance':
                 st = self.static_test(e)
                 return Val('true' if st else 'false', 'Bool')
+            if f.id in self.env and self.env[f.id].typ.startswith('Fn ') and len(e.args) == 1:
+                dom, cod = self.env[f.id].typ.split()[1:3]         # a callable parameter: 'Fn <arg> <result>'
+                a = self.expr(e.args[0])
+                if a.typ != dom:
+                    raise Unsupported(f'`{f.id}` applied to {a.typ}')
+                return Val(f'({self.env[f.id].text} {_paren(a.text)})', cod)
             if f.id in self.u.intrinsics:
                 return self.u.intrinsics[f.id](self, [self.expr(a) for a in e.args])
             # a constructor of a modelled class
